@@ -44,8 +44,9 @@ type Case struct {
 	// Late: the cut isolates the second prompt of a two-prompt answer: modelled by lateDevice;
 	// timing dependent on the real side (either the late or the fast outcome is accepted)
 	Late bool `json:"late,omitempty"`
-	// Patient: re-examination of a suspicious verdict: longer time-outs (run serially)
-	Patient bool `json:"patient,omitempty"`
+	// Rerun: serial re-run of a case whose first run showed environment trouble (same time-outs: the
+	// time-outs are inputs of the code under test — WaitShort — and must not differ between runs)
+	Rerun bool `json:"rerun,omitempty"`
 	// Fixed: a banner rides on a fixed line sent while the reload is scheduled:
 	// "configure terminal" (the second one), "end" (the deferred one), "reload cancel"
 	Fixed map[string]Behav `json:"fixed,omitempty"`
@@ -121,7 +122,7 @@ func runDialog(dir string, c *Case) Outcome {
 		"code/router":      strings.Join(c.Target, "\n") + "\n",
 		"code/router.info": `{"model":"IOS","name_list":["router"],"ip_list":["10.1.13.33"]}` + "\n",
 		"credentials":      "* admin secret\n",
-		".netspoc-approve": fmt.Sprintf("basedir = %s\ncheckbanner = NetSPoC\nsystemuser = admin\ntimeout = %d\nlogin_timeout = %d\n", dir, map[bool]int{false: 2, true: 6}[c.Patient], map[bool]int{false: 3, true: 20}[c.Patient]),
+		".netspoc-approve": fmt.Sprintf("basedir = %s\ncheckbanner = NetSPoC\nsystemuser = admin\ntimeout = %d\nlogin_timeout = %d\n", dir, 2, 3),
 	})
 	replies := stdReplies()
 	replies["sh run"] = []string{"sh run\n" + strings.Join(c.Device, "\n") + "\n" + prompt}
